@@ -209,6 +209,16 @@ func match(m *Matcher, l, r any) (any, bool) {
 		return nil, l == r
 	}
 
+	// Values of bindings that aren't AST nodes: identifier names and tokens.
+	switch l := l.(type) {
+	case string:
+		r, ok := r.(string)
+		return r, ok && l == r
+	case token.Token:
+		r, ok := r.(token.Token)
+		return r, ok && l == r
+	}
+
 	{
 		ln, ok1 := l.(ast.Node)
 		rn, ok2 := r.(ast.Node)
